@@ -96,7 +96,8 @@ Definition exec (s : st) (p : prim) : st :=
 (* ---- public operations ---- *)
 Inductive op :=
 (* user code on plain NumPy arrays *)
-| NewArr (v : list Z)              (* x = np.array(v) *)
+| NewArr (v : list Z)              (* x = np.array(v)  (also: an instance of an ndarray subclass) *)
+| NewArrRO (v : list Z)            (* x = np.array(v); x.flags.writeable = False *)
 | NdView (n : nat)                 (* x.view() | x[:] | x.reshape(L) | x.T *)
 | NdCopy (n : nat)                 (* x.copy() *)
 | NdWrite (n i : nat) (v : Z)      (* x[i] = v *)
@@ -157,6 +158,7 @@ Definition compile (fixd : bool) (L : nat) (s : st) (o : op) : list prim * res :
   let nD := length (diags s) in
   match o with
   | NewArr v => if length v =? L then ([PFresh v true], RNd nN) else ([], RBad)
+  | NewArrRO v => if length v =? L then ([PFresh v false], RNd nN) else ([], RBad)
   | NdView n => match nd_at s n with Some _ => ([PView n], RNd nN) | None => ([], RBad) end
   | NdCopy n => match nd_at s n with Some _ => ([PFresh (nd_val s n) true], RNd nN) | None => ([], RBad) end
   | NdWrite n i v => np_setitem L s n i v
